@@ -818,6 +818,11 @@ func (vc *VC) assumeInvariants(li *LoopInfo) {
 	for _, ph := range li.localSlices {
 		t := vc.vals[ph]
 		vc.assume(fmt.Sprintf("(or (= (s_arr %s) 0) (> (s_arr %s) %s))", t.S, t.S, top0))
+		for _, ph2 := range li.localSlices {
+			if ph2 != ph {
+				vc.assume(fmt.Sprintf("(or (= (s_arr %s) 0) (not (= (s_arr %s) (s_arr %s))))", t.S, t.S, vc.vals[ph2].S))
+			}
+		}
 	}
 	ls := vc.loopSpec(li)
 	if ls == nil {
